@@ -16,6 +16,7 @@ fn main() {
     let a = Args::from_env();
     match a.cmd() {
         "random" => random(&a),
+        "prog" => progs(&a),
         _ => {
             eprintln!("usage: exec random ...");
             std::process::exit(2)
@@ -120,4 +121,64 @@ fn random(a: &Args) {
         json!({"programs":count,"systems":nsys,"events":nev,"dispatches":ndisp,"max_held":max_held,
                "releases":releases,"stalls":stalls,"panicking_dispatches":npan,"samples":samples})
     );
+}
+
+/// exec prog --in progs.jsonl --out trace.ndjson : fixed programs (one JSON object per line:
+/// {"prog": <Prog>, "modes": ["disp","seq",..], "gated": bool, "panics": [[gid..],..]})
+fn progs(a: &Args) {
+    use std::io::BufRead;
+    let inp = a.get("in").expect("--in");
+    let out = a.get("out").expect("--out");
+    let seed: u64 = a.num("seed", 1);
+    let quiet_us: u64 = a.num("quiet-us", 300);
+    let mut rng = StdRng::seed_from_u64(seed);
+    let mut w = BufWriter::new(File::create(out).unwrap());
+    #[cfg(feature = "parallel")]
+    let gate_pool = pool(a.num("pool", 16));
+    let (mut n, mut nev, mut ndisp) = (0usize, 0usize, 0usize);
+    for line in std::io::BufReader::new(File::open(inp).unwrap()).lines() {
+        let line = line.unwrap();
+        if line.trim().is_empty() {
+            continue;
+        }
+        let v: serde_json::Value = serde_json::from_str(&line).expect("json");
+        let prog: shredh::prog::Prog = serde_json::from_value(v["prog"].clone()).expect("prog");
+        let gated = v["gated"].as_bool().unwrap_or(true);
+        let modes: Vec<String> = serde_json::from_value(v["modes"].clone()).unwrap_or_else(|_| vec!["disp".into()]);
+        let panics: Vec<Vec<usize>> = serde_json::from_value(v["panics"].clone()).unwrap_or_default();
+        let mut res = Vec::new();
+        prog.resources(&mut res);
+        n += 1;
+        #[cfg(feature = "parallel")]
+        let p = gate_pool.clone();
+        #[cfg(not(feature = "parallel"))]
+        let p = ();
+        let mut r = record_registration_pool(&prog, Variant::identity(&res), n, 0, true, p);
+        if r.dispatcher.is_some() {
+            let world = setup_world(&mut r, false);
+            for (i, m) in modes.iter().enumerate() {
+                let mode = match m.as_str() {
+                    "par" => Mode::Par,
+                    "seq" => Mode::Seq,
+                    "tlonly" => Mode::TlOnly,
+                    _ => Mode::Disp,
+                };
+                let opts = ExecOpts {
+                    mode,
+                    gated,
+                    quiet_us,
+                    seed: rng.gen(),
+                    jitter_us: 20,
+                    panics: panics.get(i).cloned().unwrap_or_default(),
+                    policy: 0,
+                };
+                run_dispatch(&mut r, &world, &opts);
+                ndisp += 1;
+            }
+        }
+        nev += r.rec.events.len();
+        write_events(&mut w, &r.rec.events);
+    }
+    w.flush().unwrap();
+    println!("{}", json!({"programs":n,"events":nev,"dispatches":ndisp}));
 }
